@@ -39,7 +39,14 @@ func VerifC06() {
 		ruleH.SpecificItems = map[interface{}]int64{vals[0]: sthr}
 	}
 	ruleG := &hotspot.Rule{Resource: "G", MetricType: hotspot.Concurrency, ParamIndex: -1, Threshold: thrG, ParamsMaxCapacity: 10}
-	if _, err := hotspot.LoadRules([]*hotspot.Rule{ruleH, ruleG}); err != nil {
+	rules := []*hotspot.Rule{ruleH, ruleG}
+	if rt.Param("TWO") != 0 {
+		// both resources get a first rule that selects an argument no entry carries (an index out of range): it never applies, the second one still does
+		rules = []*hotspot.Rule{
+			{Resource: "H", MetricType: hotspot.Concurrency, ParamIndex: 5, Threshold: 1, ParamsMaxCapacity: 10}, ruleH,
+			{Resource: "G", MetricType: hotspot.Concurrency, ParamIndex: 7, Threshold: 1, ParamsMaxCapacity: 10}, ruleG}
+	}
+	if _, err := hotspot.LoadRules(rules); err != nil {
 		rt.Assert(false, "LoadRules returned an error")
 		return
 	}
@@ -101,10 +108,11 @@ func VerifC06() {
 		// per-value in-flight figure equals the live entries for the value
 		for r := 0; r < 2; r++ {
 			tcs := hotspot.VerifControllers(names[r])
-			if len(tcs) != 1 {
-				rt.Assert(false, "one controller per resource")
+			if len(tcs) != 1+rt.Param("TWO") {
+				rt.Assert(false, "one controller per rule of the resource")
 				continue
 			}
+			tcs = tcs[len(tcs)-1:] // the rule that selects the entries' argument
 			for v := 0; v < 2; v++ {
 				ptr, ok := tcs[0].BoundMetric().ConcurrencyCounter.Get(vals[v])
 				var got int64
